@@ -99,7 +99,7 @@ type GhostDecl struct {
 var clauseKw = map[string]bool{
 	"func": true, "extern": true, "requires": true, "ensures": true, "nopanic": true, "modifies": true,
 	"pure": true, "inline": true, "loop": true, "let": true, "assume": true, "trusted": true, "prelude": true,
-	"lemma": true, "panics_unless": true, "props": true, "ghost": true, "end": true, "modifies_ptr": true, "kvstore": true, "hint": true, "vars": true, "call": true, "show": true,
+	"lemma": true, "panics_unless": true, "props": true, "ghost": true, "end": true, "modifies_ptr": true, "kvstore": true, "hint": true, "vars": true, "call": true, "show": true, "use": true,
 }
 
 var labelRe = regexp.MustCompile(`^@([A-Za-z0-9_\-]+)\s*`)
@@ -238,7 +238,7 @@ func (cs *ContractSet) LoadFile(path, pkg string) error {
 			curLemma = lm
 			cur = nil
 		default:
-			if curLemma != nil && (kw == "vars" || kw == "call" || kw == "assume" || kw == "show") {
+			if curLemma != nil && (kw == "vars" || kw == "call" || kw == "assume" || kw == "show" || kw == "use") {
 				st, err := parseLemmaStep(kw, rest, where)
 				if err != nil {
 					return err
@@ -534,6 +534,16 @@ func parseLemmaStep(kw, rest, where string) (*LemmaStep, error) {
 			return nil, fmt.Errorf("%s: %v", where, err)
 		}
 		st.E = e
+	case "use":
+		e, err := ParseExpr(rest)
+		if err != nil {
+			return nil, fmt.Errorf("%s: %v", where, err)
+		}
+		if e.Kind != "call" {
+			return nil, fmt.Errorf("%s: use needs LEMMA(args)", where)
+		}
+		st.Callee = e.Tok
+		st.Args = e.Args
 	case "call":
 		idx := strings.Index(rest, ":=")
 		if idx < 0 {
@@ -554,4 +564,13 @@ func parseLemmaStep(kw, rest, where string) (*LemmaStep, error) {
 		st.Args = e.Args
 	}
 	return st, nil
+}
+
+func (cs *ContractSet) LemmaByName(n string) *Lemma {
+	for _, l := range cs.Lemmas {
+		if l.Name == n {
+			return l
+		}
+	}
+	return nil
 }
